@@ -599,12 +599,69 @@ def rule_current_directory_tests(prog, fixture=False):
     return r
 
 
+# ---------------------------------------------------------------- R-C02-7
+def rule_cycle_presence(prog, fixture=False):
+    r = RuleResult("R-C02-7", "whether the cycle number is reported depends only on whether the format keeps one "
+                   "(the optional is engaged), never on its value: the result of sequence_number() travels as an "
+                   "optional to where it is printed, and no condition there reads the value", floor=0 if fixture else 1)
+    for fn in prog.functions.values():
+        for n in fn.walk():
+            if n.get("k") != "CXXMemberCallExpr" or (strip(n["c"][0]) or {}).get("n") != "sequence_number":
+                continue
+            if "optional" not in (n.get("t") or n.get("ct") or "optional"):
+                continue
+            if fn.name == "sequence_number":
+                continue                      # the catalogue forwarding to its primary fragment
+            key = "%s::%s::sequence_number()" % (fn.relfile(), fn.qn)
+            p_ = fn.parent(n)
+            while p_ is not None and p_.get("k") in ("ImplicitCastExpr", "MaterializeTemporaryExpr", "CXXBindTemporaryExpr",
+                                                     "ExprWithCleanups", "ParenExpr"):
+                p_ = fn.parent(p_)
+            problem = None
+            recv = None
+            if p_ is not None and p_.get("k") == "MemberExpr" and p_.get("n") in ("value_or", "value"):
+                problem = "the optional cycle number is collapsed with %s(): a format without a cycle number and a cycle " \
+                          "number equal to the substitute become indistinguishable, so one of them is shown wrongly" % p_.get("n")
+            elif p_ is not None and p_.get("k") in ("CXXConstructExpr", "CXXTemporaryObjectExpr") and "optional" in (p_.get("cls") or ""):
+                # converted to another optional (e.g. optional<int>): engagement is preserved; find the receiving parameter
+                q_ = fn.parent(p_)
+                while q_ is not None and q_.get("k") in ("ImplicitCastExpr", "MaterializeTemporaryExpr", "CXXBindTemporaryExpr",
+                                                         "ExprWithCleanups", "ParenExpr"):
+                    q_ = fn.parent(q_)
+                recv = q_
+            elif p_ is not None and p_.get("k") == "CXXOperatorCallExpr" and p_.get("op") == "*":
+                problem = "the optional cycle number is dereferenced without regard to whether the format has one"
+            else:
+                recv = p_
+            if problem is None and recv is not None and is_call(recv):
+                for t in prog.call_targets(fn, recv):
+                    args = call_args(recv)
+                    for prm, a in zip(t.params, args):
+                        if any(x is n for x in walk(a)):
+                            if "optional" not in (prm.get("t") or ""):
+                                problem = "passed to `%s`, whose parameter `%s` is not an optional" % (t.qn, prm.get("n"))
+                                continue
+                            for c in t.walk():
+                                if c.get("k") in ("IfStmt", "ConditionalOperator", "WhileStmt"):
+                                    cond = c["c"][c["parts"]["cond"]] if c.get("parts") else c["c"][0]
+                                    for x in walk(cond):
+                                        if x.get("k") == "CXXOperatorCallExpr" and x.get("op") == "*" and \
+                                                any(y.get("k") == "DeclRefExpr" and y.get("d") == prm["d"] for y in walk(x)):
+                                            problem = "%s: a condition in %s reads the value of the cycle number" % (t.loc(cond), t.qn)
+                                        if x.get("k") == "MemberExpr" and x.get("n") in ("value", "value_or") and \
+                                                any(y.get("k") == "DeclRefExpr" and y.get("d") == prm["d"] for y in walk(x)):
+                                            problem = "%s: a condition in %s reads the value of the cycle number" % (t.loc(cond), t.qn)
+            r.add(key, fn.loc(n), problem is None, "travels as an optional; only its engagement is tested" if problem is None else problem)
+    return r
+
+
 def run(ctx):
     from . import c01
     prog = ctx.prog("dfs", "N")
     return [rule_entry_fields(prog), rule_fragment_header(prog), rule_title(prog), rule_sign_extend(prog),
             rule_crc(prog), rule_report_provenance(prog), rule_sign_extension_use(prog),
-            rule_current_directory_tests(prog), c01.rule_opus_catalogue_slot(prog, rule_id="R-C02-6")]
+            rule_current_directory_tests(prog), c01.rule_opus_catalogue_slot(prog, rule_id="R-C02-6"),
+            rule_cycle_presence(prog)]
 
 
 SELFTESTS = [
